@@ -1,5 +1,6 @@
 /- Model/C09Gen.lean — the C09 model instantiated with the facts the translator extracted. -/
 import PsutilModel.Model.C09
+import PsutilModel.Model.C09Wrap
 import PsutilModel.Generated.C09
 namespace Psutil.C09
 
@@ -79,5 +80,36 @@ def usageCfg : UsageCfg :=
     outTotal := Gen.C09.usageOut.1
     outUsed := Gen.C09.usageOut.2.1
     outFree := Gen.C09.usageOut.2.2 }
+
+/-! ### the default call form (`nowrap=True`) over a history of calls — Model/C09Wrap.lean instantiated -/
+
+def wrapStrict : Bool := Gen.C09.wrapStrictLess
+def diskPerName : String := Gen.C09.wrapNames.getD 0 "?"
+def diskTotName : String := Gen.C09.wrapNames.getD 1 "?"
+def netPerName : String := Gen.C09.wrapNames.getD 2 "?"
+def netTotName : String := Gen.C09.wrapNames.getD 3 "?"
+def diskClearNames : List String := Gen.C09.wrapClearNames.getD 0 []
+def netClearNames : List String := Gen.C09.wrapClearNames.getD 1 []
+
+/-- `psutil.net_io_counters(pernic, nowrap=True)` in the state `w` of `_wn` -/
+def netIoCountersWrap (w : WState) (pernic : Bool) (file : Bytes) : WState × Out :=
+  frontEndWrap wrapStrict (if pernic then netPerName else netTotName) Gen.C09.snetioFields netAgg netEmptyPer netEmptyTot
+    pernic w (netPlatform netCfg file)
+
+/-- `psutil.disk_io_counters(perdisk, nowrap=True)` in the state `w` of `_wn` -/
+def diskIoCountersWrap (w : WState) (sysBlock : List Bytes) (perdisk : Bool) (file : Bytes) : WState × Out :=
+  frontEndWrap wrapStrict (if perdisk then diskPerName else diskTotName) Gen.C09.sdiskioFields diskAgg diskEmptyPer
+    diskEmptyTot perdisk w (diskPlatform diskCfg (isStorageDevice diskCfg sysBlock) perdisk file)
+
+def mstep (w : WState) : MStep → WState × Out
+  | .net per nowrap file => if nowrap then netIoCountersWrap w per file else (w, netIoCounters per file)
+  | .disk per nowrap sb file => if nowrap then diskIoCountersWrap w sb per file else (w, diskIoCounters sb per file)
+  | .clearNet => (w.clear netClearNames, .none)          -- `cache_clear()` returns None
+  | .clearDisk => (w.clear diskClearNames, .none)
+
+/-- the value returned by every call of a history -/
+def mrun (w : WState) : List MStep → List Out
+  | [] => []
+  | s :: r => (mstep w s).2 :: mrun (mstep w s).1 r
 
 end Psutil.C09
